@@ -409,6 +409,23 @@ def gen_run(r, idx, prev=None, force_cdx=False, big=False):
             cfg['fail_write'] = [3, r.choice([0, 1, 2])]           # warcinfo, request A, request B, response A
             cfg['visits'] = []
             cfg['revisit'] = False
+    elif r.random() < 0.1:
+        # a size-based rollover between the request record and the response record of one exchange: A's request is written, B's whole
+        # exchange ends (its close rolls the archive over to the next numbered file), then A's response arrives
+        pair = []
+        for i in range(2):
+            for _ in range(30):
+                h = gen_http(r, i)
+                if h['truth']['fail'] is None and h['stop'] == 'complete':
+                    break
+            pair.append(h)
+        if all(h['truth']['fail'] is None and h['stop'] == 'complete' for h in pair):
+            sessions = pair
+            schedule = [[0, 'start'], [1, 'start'], [1, 'download'], [1, 'exit'], [0, 'download'], [0, 'exit']]
+            cfg['max_size'] = r.choice([0, 200, 400])
+            cfg['fail_write'] = None
+            cfg['visits'] = []
+            cfg['revisit'] = False
     return {'cfg': cfg, 'sessions': sessions, 'schedule': schedule}
 
 
